@@ -25,6 +25,7 @@
 #include <glm/gtx/matrix_decompose.hpp>
 #include <glm/gtx/quaternion.hpp>
 #include <glm/gtx/common.hpp>
+#include <glm/gtx/dual_quaternion.hpp>
 #include <glm/gtx/color_space.hpp>
 #include <glm/gtx/color_space_YCoCg.hpp>
 #include <cstring>
